@@ -324,6 +324,11 @@ func genScenario(rnd *hx.Rand, r *hx.Run) *scenario {
 		batch = 9 + rnd.Intn(24)
 	}
 	r.Count(fmt.Sprintf("size:batch<=%d", bucket(batch)))
+	if batch >= 2 && sc.procs >= 2 && rnd.Chance(1, 3) {
+		// workers hand their results back to Run in pairs, at the same moment
+		sc.meet = true
+		r.Count("gen:leave-in-pairs")
+	}
 
 	// which factories the manager is given, and how
 	oot := -1
